@@ -203,7 +203,7 @@ def rule_store(F, R, rule="R14-store"):
                 "%d setter calls, %d direct writes to `values`" % (len(sets), len(direct)), h["span"])
         # the setter's error is propagated
         for c in sets:
-            par = [m for m in exprs(h["body"], "MethodCall") if m["m"] == "map_err" and strip(m["recv"]) is c]
+            par = [m for m in exprs(h["body"], "MethodCall") if m["m"] == "map_err" and deref(m["recv"]) is c]
             R.check(len(par) == 1, rule, fn, "setter error becomes a deserialization error", where=c["sp"])
     n = 0
     for rx, meth, what in ((r"ArrayVisitor as serde_core::de::Visitor>::visit_seq$", "push", "array element"),
@@ -288,7 +288,7 @@ def rule_shapes(F, R, rule="R14-shapes"):
 
 def _hint_terms(e, body=None, depth=0):
     """split a length-hint expression into terms: ('len', x) | ('count', x) | ('bool', x) | ('lit', k) | ('?', kind)"""
-    e = strip(e)
+    e = deref(e)
     if e.get("k") == "Binary" and e["op"] == "Add":
         return _hint_terms(e["l"], body, depth) + _hint_terms(e["r"], body, depth)
     v = lit_value(e)
@@ -332,7 +332,7 @@ def rule_lenhint(F, R, rule="R14-lenhint"):
                     if not (cal.endswith("Serializer::serialize_map") or cal.endswith("Serializer::serialize_seq")):
                         continue
                     n += 1
-                    harg = strip(call_args(c)[1])
+                    harg = deref(call_args(c)[1])
                     if def_path(harg) == "core::option::Option::None":
                         R.ok(rule, fn, "no length is announced (None)", where=c["sp"])
                         continue
@@ -487,14 +487,14 @@ def rule_unknownkey(F, R, rule="R14-unknownkey"):
         lits, _ = sem.literals(pc)
         for a, pol in lits:
             if pol and a.kind == "ok" and any(norm(c.get("callee", "")) in ("scheme::Scheme::get_field", "scheme::Scheme::get")
-                                              for c in exprs(a.node, ("Call", "MethodCall"))):
+                                              for c in list(exprs(a.node, ("Call", "MethodCall"))) + chain(a.node)[1]):
                 return True
         return False
     n_list = n_field = 0
     for x in vals:
         tys = " ".join(norm(str(a_.get("ty", ""))) for a_ in x.node.get("args", [])) + " " + norm(str(x.node.get("ty", "")))
         is_list_seed = any(c.get("callee_kind", "").startswith("Ctor") and last_seg(norm(c.get("callee", ""))) == "ListMatcherSlice"
-                           for a_ in x.node.get("args", []) for c in exprs(a_, "Call"))
+                           for a_ in x.node.get("args", []) for c in exprs(deref(a_), "Call"))
         if "IgnoredAny" in tys:
             R.violation(rule, fn, "no value is skipped", "a value is read as IgnoredAny: the key it belongs to is accepted without "
                         "being a declared field or the list section", x.node["sp"])
